@@ -8,7 +8,7 @@
 From PahoV Require Import Base.Prelude Codec.Mid Conc.Sched Conc.SchedLemmas Conc.MidGen.
 
 Definition steady (l : lpc) : bool :=
-  match l with LWant | LSelect _ | LDrain | LPop | LSend _ => true | _ => false end.
+  match l with LWant | LSelect _ | LDrain | LGate | LPop | LSend _ => true | _ => false end.
 
 Definition pkt_idx (p : pkt) : nat := match p with Publish _ k _ => k | Connect _ => O end.
 
@@ -50,10 +50,11 @@ Lemma lstep_flight c c' k0 : lstep c = Some c' -> steady (loop c) = true -> sock
   flight c' = flight c /\ steady (loop c') = true /\ sock c' = Some k0.
 Proof.
   unfold lstep, flight. intros H Hs Hk.
-  destruct (loop c) as [|wl| | |p| | | | |]; try discriminate Hs.
+  destruct (loop c) as [|wl| | | |p| | | | | | |]; try discriminate Hs.
   - inversion H; subst; cbn. auto.
   - destruct (0 <? pipe c)%nat; [|destruct wl; [|discriminate]]; inversion H; subst; cbn; auto.
   - inversion H; subst; cbn. auto.
+  - inversion H; subst; cbn. destruct (cq c); auto.
   - destruct (out_packet c) as [|x q] eqn:E; inversion H; subst; cbn; rewrite ?E; auto.
   - rewrite Hk in H. inversion H; subst; cbn. rewrite map_app. cbn. rewrite <- app_assoc. auto.
 Qed.
